@@ -1,6 +1,6 @@
 (* C10 -- decision-diagram algebra agrees with pointwise semantics.  Statements only. *)
 From Coq Require Import List Arith Bool.
-From DS Require Import Model.ADD Model.Oracle Proofs.ADDProofs Proofs.ModelCount Proofs.OracleExact Proofs.ADDClosure.
+From DS Require Import Model.ADD Model.Oracle Proofs.ADDProofs Proofs.ModelCount Proofs.OracleExact Proofs.ADDClosure Proofs.ADDConcat Proofs.ADDStack.
 Import ListNotations.
 
 (* ---- values: adding tallies, and subtracting one from a valid tally, is component-wise and yields the single
@@ -91,6 +91,27 @@ Theorem C10_update_semantics : forall d locs f v, okd d -> (forall a, f a = a_ad
   forall x, eval (update d locs f) x = Nat.iter (hits d x locs) (fun e => a_add (d_type d) e v) (eval d x).
 Proof. exact update_semantics. Qed.
 
+(* ---- concatenate(): the value at x1 ++ x2 ++ ... is the saturating sum of the elements' values at x1, x2, ...
+   (elements well formed, of one type, each with at least one variable), and the result is well formed ---- *)
+Theorem C10_eval_concatenate : forall t els xs, els <> [] -> wf_type t -> Forall2 (piece_ok t) els xs ->
+  eval (add_concatenate els) (concat xs)
+  = fold_left (fun a ex => a_add t a (eval (fst ex) (snd ex))) (combine els xs) (a_zero t).
+Proof. exact eval_concatenate. Qed.
+Theorem C10_concatenate_wellformed : forall t els, els <> [] -> (forall e, In e els -> elem_ok t e) -> okd (add_concatenate els).
+Proof. exact concatenate_okd. Qed.
+
+(* ---- stack(factors, elements): the 2^f elements (well formed, of one type and depth, any diameters) sit under a
+   header tree over the factor variables; the value at xf ++ xe is the value at xe of the element selected by the factor
+   values xf (product order, first factor most significant), and the result is well formed ---- *)
+Theorem C10_eval_stack : forall t factors els depth, factors <> [] -> length els = 2 ^ length factors ->
+  (forall e, In e els -> okd e /\ d_type e = t /\ length (d_levels e) = depth) ->
+  forall xf xe, wf_type t -> length xf = length factors ->
+  eval (add_stack factors els) (xf ++ xe) = eval (nth (sel xf) els (mkADD (plain []) [] 0 [])) xe.
+Proof. exact eval_stack. Qed.
+Theorem C10_stack_wellformed : forall t factors els depth, factors <> [] -> length els = 2 ^ length factors ->
+  (forall e, In e els -> okd e /\ d_type e = t /\ length (d_levels e) = depth) -> okd (add_stack factors els).
+Proof. exact stack_okd. Qed.
+
 Example C10_nonvacuous :
   let t := tally 2 1 2 in
   let d := mkADD t [0; 1] 0 [[mkNode true 0 0 (Some [0; 1; 0; 0; 0]) (Some [1; 0; 0; 0; 1])];
@@ -118,3 +139,7 @@ Print Assumptions C10_sum_wellformed.
 Print Assumptions C10_restrict_wellformed.
 Print Assumptions C10_update_wellformed.
 Print Assumptions C10_update_semantics.
+Print Assumptions C10_eval_concatenate.
+Print Assumptions C10_concatenate_wellformed.
+Print Assumptions C10_eval_stack.
+Print Assumptions C10_stack_wellformed.
